@@ -118,3 +118,77 @@ def getProtocolTreeNode(self: Obj("ReadDecoder"), data: ByteArray) -> Opaque("tr
     ensures(implies((data[0] // 2) % 2 == 0, event_arg("nextTreeInternal", 0, 0) == data[1:]))
     ensures(implies((data[0] // 2) % 2 == 1, event_arg("nextTreeInternal", 0, 0) == py_inflate(data[1:])))
     propagates("*")
+
+
+# =====================================================================================================================
+# stage C - trees: the shape of what writeInternal emits and what nextTreeInternal reads, callees as events
+# =====================================================================================================================
+PTN = "yowsup/structs/protocoltreenode.py"
+fields("ProtocolTreeNode", tag=Str, attributes=DictStrStr, children=ListObj("node"), data=Opt(Bytes), __file__=PTN)
+inline(PTN, "ProtocolTreeNode.hasChildren")
+opaque(ENC, "WriteEncoder.writeListStart", event="writeListStart")
+opaque(ENC, "WriteEncoder.writeAttributes", event="writeAttributes")
+opaque(ENC, "WriteEncoder.writeInternal", event="writeInternal")
+event_sort("writeInternal", "obj")
+event_sort("writeAttributes", "obj")
+
+
+@contract(ENC, "WriteEncoder.writeInternal", callees_as_events=True)
+def writeInternal(self: Obj("WriteEncoder"), node: Obj("ProtocolTreeNode"), data: ListInt):
+    modifies(data)
+    partial("recursion over the children: termination is the finiteness of the tree")
+    # list header first: 1 (tag) + 2 per attribute + 1 if there is content or children
+    ensures(event_arg("writeListStart", 0, 0) == 1 + 2 * len(node.attributes) + (1 if len(node.children) > 0 else 0) + (1 if node.data is not None else 0))
+    # then the tag, then the attributes, once each
+    ensures(n_events("writeString") == 1 and event_arg("writeString", 0, 0) == node.tag and n_events("writeAttributes") == 1
+            and same_obj(event_arg("writeAttributes", 0, 0), node.attributes))
+    # then the content, if any, as bytes
+    ensures(n_events("writeBytes") == (1 if node.data is not None else 0))
+    ensures(implies(node.data is not None, event_arg("writeBytes", 0, 0) == node.data
+                    and at_event("writeBytes", 0, lambda: n_events("writeAttributes") == 1 and n_events("writeListStart") == 1 and n_events("writeInternal") == 0)))
+    # then the children, if any: their count as a list header and every child once, in order
+    ensures(n_events("writeListStart") == (2 if len(node.children) > 0 else 1))
+    ensures(implies(len(node.children) > 0, event_arg("writeListStart", 1, 0) == len(node.children)))
+    ensures(n_events("writeInternal") == len(node.children)
+            and forall(range(0, len(node.children)), lambda j: same_obj(event_arg("writeInternal", j, 0), node.children[j])))
+    ensures(implies(len(node.children) == 0, n_events("writeInternal") == 0))
+
+
+@loop(ENC, "WriteEncoder.writeInternal", 1)
+def writeInternal_loop(self, node, data):
+    invariant(n_events("writeInternal") == loop_k())
+    invariant(forall(range(0, loop_k()), lambda j: same_obj(event_arg("writeInternal", j, 0), node.children[j])))
+
+
+opaque(DEC, "ReadDecoder.readListSize", event="readListSize", returns=Int, raises=True)
+opaque(DEC, "ReadDecoder.readAttributes", event="readAttributes", returns=Opaque("attrs"), raises=True)
+opaque(DEC, "ReadDecoder.readList", event="readList", returns=Opaque("children"), raises=True)
+inline(PTN, "ProtocolTreeNode.__init__")
+
+
+@contract(DEC, "ReadDecoder.isListTag")
+def isListTag_(self: Obj("ReadDecoder"), b: Int) -> Bool:
+    ensures(result == (b == 248 or b == 0 or b == 249))
+
+
+def size_(self):
+    return event_result("readListSize", 0)
+
+
+@contract(DEC, "ReadDecoder.nextTreeInternal", callees_as_events=True)
+def nextTreeInternal(self: Obj("ReadDecoder"), data: ByteArray) -> Opt(Opaque("tree")):
+    raises(ValueError)
+    raises(AssertionError)
+    modifies(data)
+    partial("recursion through readList: termination is the finiteness of the frame")
+    # header: list size from the first byte, then the tag token (1 = stream start marker is skipped, 2 = stream end -> no node)
+    ensures(n_events("readListSize") == 1 and event_arg("readListSize", 0, 0) == event_result("readInt8", 0))
+    # tag, then (size - 1) / 2 attribute pairs
+    ensures(implies(result is not None, n_events("readString") >= 1 and n_events("readAttributes") == 1
+                    and event_arg("readAttributes", 0, 0) == (size_(self) - 2 + size_(self) % 2) // 2))
+    # odd size: no content.  even size: exactly one content item, read by the reader of its token class
+    ensures(implies(result is not None and size_(self) % 2 == 1,
+                    n_events("readList") == 0 and n_events("readArray") == 0 and n_events("readPacked8") == 0 and n_events("readString") == 1))
+    ensures(implies(result is not None and size_(self) % 2 == 0,
+                    n_events("readList") + n_events("readArray") + n_events("readPacked8") + (n_events("readString") - 1) == 1))
+    propagates("*")
